@@ -886,6 +886,105 @@ def check_cross_kind(ctx, text, kw, fail, positions, rng, all_kinds=False):
                      {"cross": to, "pos": pos})
 
 
+# -- deep nesting --------------------------------------------------------------------------------------
+
+DEEP_DEPTHS = (50, 100, 150, 200, 300, 400, 1000)
+DEEP_POSITIONS = {
+    "selection-set": lambda n: "{ " + "a { " * n + "a" + " }" * n + " }",
+    "inline-fragment": lambda n: "{ " + "... { " * n + "a" + " }" * n + " }",
+    "list-value": lambda n: "{ a(x: " + "[" * n + "1" + "]" * n + ") }",
+    "object-value": lambda n: "{ a(x: " + "{k: " * n + "1" + "}" * n + ") }",
+    "variable-default": lambda n: "query ($v: T = " + "[" * n + "1" + "]" * n + ") { a }",
+}
+
+
+def deep_case(text, flavour):
+    """'parse:<Exc>' / 'ok' / 'unbalanced' / 'visit:<Exc>:<enters>:<leaves>' for a counting visitor (no recursion of its own)"""
+    _v = V()
+    try:
+        doc = parse_doc(text, {})
+    except RecursionError:
+        return "parse:RecursionError"
+    except Exception as e:  # noqa
+        return "parse:%s" % type(e).__name__
+    c = {"e": 0, "l": 0, "d": 0, "max": 0, "bad": False}
+    base = _v.DispatchingVisitor if flavour == "dispatching" else _v.ASTVisitor
+
+    class Count(base):
+        def enter(self, node):
+            c["e"] += 1
+            c["d"] += 1
+            c["max"] = max(c["max"], c["d"])
+            return node
+
+        def leave(self, node):
+            c["l"] += 1
+            c["d"] -= 1
+            if c["d"] < 0:
+                c["bad"] = True
+    vis = Count()
+    if flavour == "chain":
+        vis = _v.ChainedVisitor(Count(), Count())
+    try:
+        res = vis.visit(doc)
+    except RecursionError:
+        return "visit:RecursionError:%d:%d" % (c["e"], c["l"])
+    except Exception as e:  # noqa
+        return "visit:%s:%d:%d" % (type(e).__name__, c["e"], c["l"])
+    if res is not doc or c["e"] != c["l"] or c["d"] != 0 or c["bad"] or c["e"] == 0:
+        return "unbalanced"
+    return "ok"
+
+
+def check_deep(ctx, fail):
+    """Documents the parser accepts, nested 50..1000 deep at every position the traversal recurses through: where the
+    visit succeeds the calls are balanced; a RecursionError of the traversal on a tree the parser produced is a failure
+    of the property (the visitor needs about twice the Python frames per level the parser needs)."""
+    table = {}
+    for pos, mk in DEEP_POSITIONS.items():
+        row = table.setdefault(pos, {})
+        reported = set()
+        for n in DEEP_DEPTHS:
+            text = mk(n)
+            for flavour in ("plain", "dispatching", "chain"):
+                out = deep_case(text, flavour)
+                row["%d:%s" % (n, flavour)] = out
+                ctx.count()
+                ctx.stat("deep:%s:%s" % (pos, ":".join(out.split(":")[:2])))
+                if out.startswith("parse:"):
+                    break           # not a parser-produced tree (C01 P1)
+                detail = {"text": text if n <= 400 else "<%s nested %d deep>" % (pos, n), "kw": {}, "deep": pos, "depth": n,
+                          "flavour": flavour, "outcome": out}
+                if out == "ok":
+                    ctx.nontrivial(("deep", pos, n, flavour))
+                elif out.startswith("visit:RecursionError"):
+                    sig = "raises:RecursionError:depth:%s" % pos
+                    if sig not in reported:
+                        reported.add(sig)
+                        fail(sig, "the %s visitor raises RecursionError on a tree the parser produced (%s nested %d deep): enter was called "
+                             "%s times and leave %s times" % (flavour, pos, n, out.split(":")[2], out.split(":")[3]), detail)
+                else:
+                    fail("deep:%s:%s" % (":".join(out.split(":")[:2]), pos), "deeply nested document: the visit is not balanced (%s)" % out, detail)
+        # the exact boundaries of this run (they move with the number of Python frames already on the stack)
+        lo, hi = 1, 1200
+        while lo < hi:          # largest depth the parser accepts
+            mid = (lo + hi + 1) // 2
+            if deep_case(mk(mid), "plain").startswith("parse:"):
+                hi = mid - 1
+            else:
+                lo = mid
+        row["max_depth_parsed"] = lo
+        a, b = 1, lo
+        while a < b:            # largest depth the plain visitor traverses
+            mid = (a + b + 1) // 2
+            if deep_case(mk(mid), "plain") == "ok":
+                a = mid
+            else:
+                b = mid - 1
+        row["max_depth_visited"] = a
+    ctx.extra["deep_nesting"] = table
+
+
 def check_transforms(ctx, text, kw, fail):
     """the real helpers of py_gql.utilities.ast_transforms"""
     import py_gql.utilities.ast_transforms as T
